@@ -58,7 +58,10 @@ type IndexedState struct {
 	// Loaded indicates whether we have loaded data from Store.
 	Loaded bool
 
+	// cachedRules is protected by cacheMutex, not by the state
+	// lock: it is used before and after the locked sections.
 	cachedRules map[string]*Rule
+	cacheMutex  sync.Mutex
 
 	addHook AddHookFn
 
@@ -254,7 +257,7 @@ func extractTermsAux(ctx *Context, x interface{}, terms StringSet, depth int) {
 
 func (s *IndexedState) Add(ctx *Context, id string, x Map) (string, error) {
 	Log(DEBUG, ctx, "IndexedState.Add", "state", s.Name, "factx", x, "id", id)
-	delete(s.cachedRules, id)
+	s.uncacheRule(id)
 	s.slock(ctx, false)
 	id, err := s.add(ctx, id, x)
 	var js []byte
@@ -426,7 +429,7 @@ func (s *IndexedState) Rem(ctx *Context, id string) (bool, error) {
 
 func (s *IndexedState) rem(ctx *Context, id string) (bool, error) {
 	Log(DEBUG, ctx, "IndexedState.rem", "name", s.Name, "id", id)
-	delete(s.cachedRules, id)
+	s.uncacheRule(id)
 
 	// Currently we don't return an error if the fact isn't found.
 	// ToDo: Reconsider.  For example, maybe have an additional
@@ -521,7 +524,7 @@ func (s *IndexedState) Clear(ctx *Context) error {
 	s.slock(ctx, false)
 	defer s.sunlock(ctx, false)
 
-	s.cachedRules = make(map[string]*Rule)
+	s.uncacheRules()
 	if err := s.remHooks(ctx); err != nil {
 		return err
 	}
@@ -539,7 +542,7 @@ func (s *IndexedState) Delete(ctx *Context) error {
 	s.slock(ctx, false)
 	defer s.sunlock(ctx, false)
 
-	s.cachedRules = make(map[string]*Rule)
+	s.uncacheRules()
 	if err := s.remHooks(ctx); err != nil {
 		return err
 	}
@@ -786,16 +789,48 @@ func (s *IndexedState) FindCachedRules(ctx *Context, event Map) (map[string]*Rul
 
 	acc := make(map[string]*Rule)
 	for id, r := range rules {
-		if _, isCached := s.cachedRules[id]; isCached {
-			acc[id] = s.cachedRules[id]
+		if rule := s.cachedRule(id); rule != nil {
+			acc[id] = rule
 		} else {
 			rule, err := RuleFromMap(ctx, r)
 			if err != nil {
 				return nil, err
 			}
-			acc[id] = rule
-			s.cachedRules[id] = rule
+			rule.Id = id
+			acc[id] = s.cacheRule(id, rule)
 		}
 	}
 	return acc, nil
+}
+
+func (s *IndexedState) cachedRule(id string) *Rule {
+	s.cacheMutex.Lock()
+	rule := s.cachedRules[id]
+	s.cacheMutex.Unlock()
+	return rule
+}
+
+// cacheRule remembers the given rule unless another request did so
+// in the meantime.  Returns the cached rule.
+func (s *IndexedState) cacheRule(id string, rule *Rule) *Rule {
+	s.cacheMutex.Lock()
+	if cached, have := s.cachedRules[id]; have {
+		rule = cached
+	} else {
+		s.cachedRules[id] = rule
+	}
+	s.cacheMutex.Unlock()
+	return rule
+}
+
+func (s *IndexedState) uncacheRule(id string) {
+	s.cacheMutex.Lock()
+	delete(s.cachedRules, id)
+	s.cacheMutex.Unlock()
+}
+
+func (s *IndexedState) uncacheRules() {
+	s.cacheMutex.Lock()
+	s.cachedRules = make(map[string]*Rule)
+	s.cacheMutex.Unlock()
 }
